@@ -196,6 +196,32 @@ def h2(ctx: Ctx):
                    where(fi, node), sample="':' not in host")
 
 
+def h4(ctx: Ctx):
+    """A host that is not an IP literal is encoded whole: what is lower-cased / IDNA-encoded, validated and returned is the
+    argument itself, never a part of it (cutting the text at a '%' while probing for a zone id and then encoding the cut
+    text silently drops the rest: 'example.com%zz1' -> 'example.com')."""
+    model = ctx.model
+    rule = "H4"
+    ctx.rule(rule, floor=1, what="the reg-name path of the host encoder uses the whole argument")
+    fi = model.func(ENC)
+    r = analyze_precise(model, fi)
+    hostp = ("param", fi.params[0])
+    seen = {}
+    for s, v, node in r.returns:
+        is_ip = any((t[0] == "attr" and t[2] in ("compressed", "version")) for t in walk(v)) or \
+            any(fv is not None and any(t[0] == "attr" and t[2] == "version" for t in walk(k)) for k, fv in s.facts.items())
+        if is_ip:
+            continue
+        cut = [t for t in walk(v) if t[0] in ("sub", "item") and any(x == hostp for x in walk(t[1]))
+               and (t[0] == "item" or t[2][0] == "slice" or t[2][0] == "const")]
+        seen.setdefault(id(node), [node, v, []])[2].append(not cut)
+    for node, v, oks in seen.values():
+        ctx.instance(rule)
+        ctx.ob(rule, ENC, f"return {show(v)[:70]}", all(oks),
+               "a registered name is built from a part of the argument only: the rest of the text is dropped without an error",
+               where(fi, node), sample="derived from the whole `host` argument")
+
+
 def h3(ctx: Ctx):
     model = ctx.model
     rule = "H3"
@@ -312,7 +338,8 @@ def ord3_ord5c(ctx: Ctx):
             lw = Lower(model, fi, r)
             raw_parts = lw.zone_parts(v)
             for part in raw_parts:
-                okz = no_match(s.facts, lambda arg: any(t == part for t in walk(arg)))
+                # validated, or known empty / absent on this path (nothing to smuggle)
+                okz = no_match(s.facts, lambda arg: any(t == part for t in walk(arg))) or truth(part, s.facts) is False
                 seen.setdefault((id(node), "zone"), [node, ("fstr", (("const", "zone id of "), ("fmt", v, None, None))), []])[2].append(okz)
             continue
         ok = no_match(s.facts, lambda arg: arg == v)
@@ -336,7 +363,11 @@ def ord5(ctx: Ctx):
     ctx.rule(rule, floor=3, what="NFKC delimiter screen on every route a non-ASCII authority can take")
     fi = model.func("_parse.split_url")
     tr = lambda kind, t: kind == "call" and t[1][0] == "global" and t[1][2] == "_check_netloc"
-    r = analyze(model, fi, trace=tr, trace_key="screen")
+    try:
+        # every path kept apart: "non-empty and not ASCII" is a two-test condition about one value, which merging may lose
+        r = analyze(model, fi, trace=tr, trace_key="screen-unmerged", merge=False)
+    except AnalysisError:
+        r = analyze(model, fi, trace=tr, trace_key="screen")
     ctx.functions.add(fi.qual)
     n = 0
     for s, v, node in r.returns:
